@@ -50,6 +50,9 @@ package metadata
 //@   requires rm != nil ==> len(rm.PublishedOperations) == 0 || len(rm.UnpublishedOperations) == 0 || arrOf(rm.PublishedOperations) != arrOf(rm.UnpublishedOperations)
 //@   results md, err
 //@   ensures err == nil ==> md != nil && fresh(md) && rm != nil && rm.Doc != nil && info != nil
+//   the ONLY reasons for an error: no model / document, no info, no published flag (whatever the anchor origin, the
+//   commitments or the operation lists look like)
+//@   ensures (err == nil) == (rm != nil && rm.Doc != nil && info != nil && "published" in info)
 // the metadata reports the model's commitments, anchor origin, deactivated / published flags, version id and the
 // canonical / equivalent ids unaltered
 //@   ensures err == nil ==> isType(md["method"], "document.Metadata") && unbox(md["method"], "document.Metadata") != nil && fresh(unbox(md["method"], "document.Metadata")) && "published" in unbox(md["method"], "document.Metadata") && unbox(md["method"], "document.Metadata")["published"] == info["published"]
